@@ -5,9 +5,6 @@ From Coq Require Import List Arith Bool Lia.
 From LMDense Require Import DenseSteps.
 Import ListNotations.
 
-Definition pick {T} (t : list (list T)) (oi : option nat) : option (list T) :=
-  match oi with Some i => nth_error t i | None => None end.
-
 Lemma nth_error_mid {A} (a : list A) x b : nth_error (a ++ x :: b) (length a) = Some x.
 Proof. rewrite nth_error_app2 by lia. now rewrite Nat.sub_diag. Qed.
 
@@ -155,9 +152,6 @@ Proof.
 Qed.
 
 (* no row is handed out twice *)
-Fixpoint somes {A} (l : list (option A)) : list A :=
-  match l with [] => [] | Some x :: r => x :: somes r | None :: r => somes r end.
-
 Lemma in_somes {A} (l : list (option A)) x : In x (somes l) <-> In (Some x) l.
 Proof.
   induction l as [|[y|] l IH]; cbn; [tauto| |].
@@ -232,4 +226,105 @@ Proof.
     + cbn [repeat take_steps]. rewrite rev_involutive.
       destruct r as [|y r]; [cbn [somes]; rewrite take_steps_nil; clear; induction n; [reflexivity|assumption]|].
       cbn [somes]. f_equal. apply IH. cbn in Hl. lia.
+Qed.
+
+(* ---------- the std adaptors built on the positional calls ---------- *)
+
+Lemma somes_repeat_none {A} n : somes (repeat (@None A) n) = [].
+Proof. induction n; [reflexivity|assumption]. Qed.
+
+(* step_by(k+1) after the first element: nth(k) repeatedly = the indices lo+k, lo+k+(k+1), ... *)
+Lemma steps_idx_nth_repeat k : forall m lo hi, lo <= hi ->
+  somes (steps_idx (repeat (SNth k) m) lo hi) = stepby_idx k m (lo + k) hi.
+Proof.
+  induction m as [|m IH]; intros lo hi Hle; [reflexivity|].
+  cbn [repeat steps_idx stepby_idx].
+  destruct (lo + k <? hi) eqn:E.
+  - apply Nat.ltb_lt in E. cbn [somes]. f_equal.
+    rewrite IH by lia. f_equal. lia.
+  - cbn [somes]. rewrite steps_idx_empty. apply somes_repeat_none.
+Qed.
+
+Lemma steps_idx_step_by k n :
+  somes (steps_idx (SNext :: repeat (SNth k) n) 0 n) = stepby_idx k (S n) 0 n.
+Proof.
+  cbn [steps_idx stepby_idx]. destruct (0 <? n) eqn:E.
+  - apply Nat.ltb_lt in E. cbn [somes]. f_equal.
+    rewrite steps_idx_nth_repeat by lia. f_equal; lia.
+  - cbn [somes]. rewrite steps_idx_empty. apply somes_repeat_none.
+Qed.
+
+(* picking rows commutes with dropping the None results, for indices inside the table *)
+Lemma somes_map_pick {T} (t : list (list T)) (l : list (option nat)) :
+  (forall i, In (Some i) l -> i < length t) ->
+  map Some (somes (map (pick t) l)) = map (nth_error t) (somes l).
+Proof.
+  induction l as [|[i|] l IH]; intros H; [reflexivity| |].
+  - cbn [map pick]. assert (Hi : i < length t) by (apply H; left; reflexivity).
+    destruct (nth_error t i) as [x|] eqn:E; [|apply nth_error_None in E; lia].
+    cbn [somes map]. rewrite E. f_equal. apply IH. intros j Hj. apply H. right; assumption.
+  - cbn [map pick somes]. apply IH. intros j Hj. apply H. right; assumption.
+Qed.
+
+Lemma take_steps_step_by {T} k (t : list (list T)) :
+  map Some (somes (take_steps (SNext :: repeat (SNth k) (length t)) t))
+  = map (nth_error t) (stepby_idx k (S (length t)) 0 (length t)).
+Proof.
+  rewrite take_steps_idx. rewrite somes_map_pick.
+  - now rewrite steps_idx_step_by.
+  - intros i Hi. apply (steps_idx_in_range _ 0 (length t) i (Nat.le_0_l _)) in Hi. lia.
+Qed.
+
+(* rev(): the calls seen from the other end are the mirrored calls on the reversed rows *)
+Lemma take_steps_mirror {T} (pat : list istep) : forall t : list (list T),
+  take_steps (mirror pat) t = take_steps pat (rev t).
+Proof.
+  induction pat as [|s p IH]; intros t; [reflexivity|].
+  destruct s as [| |k|k]; cbn [mirror map mirror1 take_steps]; fold (mirror p).
+  - (* pat has next: mirrored = next_back on t *)
+    destruct (rev t) as [|x r]; [apply f_equal, IH|]. f_equal. rewrite IH. now rewrite rev_involutive.
+  - rewrite rev_involutive. destruct t as [|x r]; [apply f_equal, (IH [])|]. f_equal. apply IH.
+  - destruct (skipn k (rev t)) as [|x r]; [apply f_equal, IH|]. f_equal. rewrite IH. now rewrite rev_involutive.
+  - rewrite rev_involutive. destruct (skipn k t) as [|x r]; [apply f_equal, (IH [])|]. f_equal. apply IH.
+Qed.
+
+Lemma mirror_step_by k n : SBack :: repeat (SNthBack k) n = mirror (SNext :: repeat (SNth k) n).
+Proof. unfold mirror. cbn [map mirror1]. f_equal. induction n; [reflexivity|]. cbn. now f_equal. Qed.
+
+Lemma take_steps_rev_step_by {T} k (t : list (list T)) :
+  map Some (somes (take_steps (SBack :: repeat (SNthBack k) (length t)) t))
+  = map (nth_error (rev t)) (stepby_idx k (S (length t)) 0 (length t)).
+Proof.
+  rewrite mirror_step_by, take_steps_mirror.
+  rewrite <- (rev_length t). apply take_steps_step_by.
+Qed.
+
+(* last() = one next_back() = the row of index rows-1 (None for an empty matrix) *)
+Lemma take_steps_last {T} (t : list (list T)) :
+  hd None (take_steps [SBack] t) = nth_error t (length t - 1).
+Proof.
+  rewrite take_steps_idx. cbn [steps_idx]. destruct (0 <? length t) eqn:E; cbn [map pick hd].
+  - reflexivity.
+  - apply Nat.ltb_ge in E. destruct t; [reflexivity|cbn in E; lia].
+Qed.
+
+(* the indices step_by designates: exactly the multiples of k+1 below n *)
+Lemma stepby_idx_in k : forall fuel i n j,
+  In j (stepby_idx k fuel i n) -> j < n /\ exists q, j = i + q * (k + 1).
+Proof.
+  induction fuel as [|f IH]; intros i n j H; [contradiction|].
+  cbn [stepby_idx] in H. destruct (i <? n) eqn:E; [|contradiction].
+  apply Nat.ltb_lt in E. destruct H as [<-|H].
+  - split; [assumption|]. exists 0. lia.
+  - apply IH in H. destruct H as [H1 [q Hq]]. split; [assumption|]. exists (S q). lia.
+Qed.
+
+Lemma stepby_idx_complete k : forall fuel i n q,
+  n <= i + fuel -> i + q * (k + 1) < n -> In (i + q * (k + 1)) (stepby_idx k fuel i n).
+Proof.
+  induction fuel as [|f IH]; intros i n q Hf Hq; [lia|].
+  cbn [stepby_idx]. replace (i <? n) with true by (symmetry; apply Nat.ltb_lt; nia).
+  destruct q as [|q]; [left; lia|]. right.
+  replace (i + S q * (k + 1)) with ((i + k + 1) + q * (k + 1)) by lia.
+  apply IH; lia.
 Qed.
